@@ -367,6 +367,55 @@ Section DeliverProofs.
     intros x y Hx Hy. apply in_seq in Hx, Hy. apply consecutive_inj; lia.
   Qed.
 
+  (* ---------- nonces count the authenticated transactions; they never go back ---------- *)
+  (* The nonce map is total (a missing account record reads as nonce 0, state.go
+     Account()), so REMOVING an account record would be a nonce write to 0.  No
+     operation of the model does that: *)
+  Lemma head_count s o a :
+    wf s ->
+    nonce_of (step C s o) a
+      = (nonce_of s a + N.of_nat (length (of_addr a (trace C s [o])))) mod U64.
+  Proof.
+    intros Hwf. pose proof (Hwf a) as Hlt.
+    destruct o as [raw|g|]; cbn [trace step app].
+    2,3: (unfold of_addr; cbn [filter map length]; rewrite N.add_0_r, N.mod_small by exact Hlt; reflexivity).
+    destruct (deliver_cases s raw) as [[Ha [e [t Hf]]]|[Ha [Hn _]]].
+    - rewrite Ha, (auth_facts_info _ _ _ _ _ Hf). cbn [app].
+      destruct Hf as [_ [_ [_ [_ [_ [_ Hn]]]]]]. unfold nonce_of at 1. rewrite Hn.
+      unfold of_addr. cbn [filter fst].
+      destruct (addr_of C (e_pk e) =? a) eqn:Q.
+      + apply N.eqb_eq in Q. subst a. rewrite nonce_in_aset_same. cbn [map length]. reflexivity.
+      + rewrite nonce_in_aset_other by (intros X; subst a; rewrite N.eqb_refl in Q; discriminate).
+        cbn [map length]. fold (nonce_of s a). rewrite N.add_0_r, N.mod_small by exact Hlt. reflexivity.
+    - rewrite Ha. cbn [app]. unfold of_addr; cbn [filter map length].
+      unfold nonce_of at 1. rewrite Hn. fold (nonce_of s a).
+      rewrite N.add_0_r, N.mod_small by exact Hlt. reflexivity.
+  Qed.
+
+  Lemma run_nonce_count s ops a :
+    wf s ->
+    nonce_of (run C s ops) a
+      = (nonce_of s a + N.of_nat (length (of_addr a (trace C s ops)))) mod U64.
+  Proof.
+    revert s; induction ops as [|o r IH]; intros s Hwf.
+    - cbn [run fold_left trace]. unfold of_addr; cbn [filter map length].
+      rewrite N.add_0_r, N.mod_small by apply Hwf. reflexivity.
+    - change (o :: r) with ([o] ++ r). rewrite run_app, trace_app, of_addr_app, app_length.
+      change (run C s [o]) with (step C s o).
+      rewrite (IH _ (step_wf s o Hwf)), (head_count s o a Hwf).
+      rewrite N.add_mod_idemp_l by discriminate. f_equal. lia.
+  Qed.
+
+  (* ... hence, as long as the counter does not wrap, the nonce of an account
+     never decreases over ANY history (and in particular is never reset) *)
+  Lemma nonce_never_decreases s ops a :
+    wf s ->
+    nonce_of s a + N.of_nat (length (of_addr a (trace C s ops))) < U64 ->
+    nonce_of s a <= nonce_of (run C s ops) a.
+  Proof.
+    intros Hwf Hb. rewrite (run_nonce_count s ops a Hwf), N.mod_small by exact Hb. lia.
+  Qed.
+
   (* ---------- no_replay ---------- *)
   Lemma no_replay s ops a :
     wf s -> N.of_nat (length (of_addr a (trace C s ops))) <= U64 ->
